@@ -242,8 +242,7 @@ func evalC20(c *engine.Case) engine.Verdict {
 				break
 			}
 			root := engine.VID(L[0])
-			d := engine.FloydWarshall(n, w)
-			checkPaths(&v, "TopoShortestPath", g, vs, w, root, d[root], dist, edgeTo, true)
+			checkPaths(&v, "TopoShortestPath", g, vs, w, root, engine.SingleSource(n, w, root), dist, edgeTo, true)
 			if v.Fail != "" {
 				break
 			}
